@@ -533,6 +533,16 @@ func init() {
 		"strconv.Itoa": func(ex *Exec, fn *ssa.Function, a []Value) Value {
 			return StringV{s: strconv.Itoa(int(ex.argInt(a[0])))}
 		},
+		"math.Float64bits": func(ex *Exec, fn *ssa.Function, a []Value) Value {
+			f := a[0].(*Term)
+			if f.Op == OConst {
+				return ex.st.BV(64, math.Float64bits(f.F()))
+			}
+			if f.S.K != KFP {
+				ex.unsupported("math.Float64bits of a non-IEEE term")
+			}
+			return ex.st.build(OFBits, SBV(64), 0, 0, f)
+		},
 		"math.Abs": func(ex *Exec, fn *ssa.Function, a []Value) Value {
 			if ex.isReal(a[0]) {
 				return ex.relaxAbs(fpArg(a[0]))
@@ -711,6 +721,12 @@ func init() {
 			sb := ex.strBytes(s)[:p.Len()]
 			return ex.strEq(ex.mkString(sb), p)
 		},
+		"internal/bytealg.IndexByteString": func(ex *Exec, fn *ssa.Function, a []Value) Value {
+			return ex.indexByte(ex.strBytes(a[0].(StringV)), a[1].(*Term))
+		},
+		"internal/bytealg.IndexByte": func(ex *Exec, fn *ssa.Function, a []Value) Value {
+			return ex.indexByte(ex.byteSliceTerms(a[0]), a[1].(*Term))
+		},
 		"internal/stringslite.Clone": func(ex *Exec, fn *ssa.Function, a []Value) Value { return a[0] },
 		"strings.Clone":              func(ex *Exec, fn *ssa.Function, a []Value) Value { return a[0] },
 		"strings.HasSuffix": func(ex *Exec, fn *ssa.Function, a []Value) Value {
@@ -799,11 +815,26 @@ func init() {
 			if conc {
 				return ex.callBody(fn, a, nil)
 			}
-			digits := len(bs) > 0 && len(bs) <= 18 && ex.spec == 0
-			for _, b := range bs {
-				if r := ex.rangeOf(b); !(r.uOK && r.ulo >= '0' && r.uhi <= '9') {
-					digits = false
+			// optional concrete sign, decimal digits, at most one concrete decimal point: the
+			// real code (ParseInt from source; ParseFloat by its contract on this shape)
+			digits := len(bs) > 0 && len(bs) <= 17 && ex.spec == 0
+			nd, points := 0, 0
+			for i, b := range bs {
+				if r := ex.rangeOf(b); r.uOK && r.ulo >= '0' && r.uhi <= '9' {
+					nd++
+					continue
 				}
+				if b.Op == OConst && i == 0 && (b.C == '+' || b.C == '-') {
+					continue
+				}
+				if b.Op == OConst && b.C == '.' && points == 0 {
+					points++
+					continue
+				}
+				digits = false
+			}
+			if nd == 0 {
+				digits = false
 			}
 			if digits {
 				// decimal digits only (by the path condition): the real code, whose first step
@@ -1078,4 +1109,14 @@ func lookupIntrinsic(fn *ssa.Function) intrinsicFn {
 		}
 	}
 	return nil
+}
+
+// indexByte is bytealg.IndexByte(String): the first position of c, deciding per byte.
+func (ex *Exec) indexByte(bs []*Term, c *Term) Value {
+	for k, b := range bs {
+		if ex.branch(ex.st.Eq(b, c)) {
+			return ex.st.BVs(64, int64(k))
+		}
+	}
+	return ex.st.BVs(64, -1)
 }
